@@ -2,6 +2,7 @@
 //@ native verif_oracle_random_fresh "bounded stand-in / witness finder (C07): in one process, on two threads, 96 secure_random(32) + 96 secure_random(16) draws, 48 PrivateKey::generate() and 24 key_encrypt calls with identical arguments and library-chosen randomness are pairwise distinct (ephemeral key field, whole file)"
 //@ native verif_oracle_hmac_hkdf "bounded stand-in / witness finder (C19): hmac_sha256 against RFC 2104 built over the crate's sha256 for every key length 0..=140 x 10 data lengths; hkdf_sha256 against RFC 5869 built over that reference for 6 salt x 3 info lengths x 8 output lengths incl. 8160; the Noise nonce layout for 10 counters; X25519 symmetry for 8 key pairs, base-point derivation, all-zero refusal"
 //@ native verif_oracle_key_wipe_sequences "bounded stand-in / witness finder (C20): every sequence of <= 4 operations from {zeroize, clone_from, assign a clone, clone and drop the clone} on a PayloadKey (inline storage inspected after drop_in_place) and on a PrivateKey (heap storage inspected by a counting global allocator at deallocation time), for the constructors new / try_from / clone"
+//@ native verif_oracle_file_level "bounded stand-in / witness finder (C01, C02, C03, C05, C06, C10, C13): key_encrypt (fixed ephemeral and payload key) and pass_encrypt against the documented file composed from the crate's own noise_encrypt / hkdf_sha256 / scrypt / AEAD: plaintexts of 0, 1, 5 bytes, reads of 1, 2 or all bytes, whole or 3-byte writes, every single read / write / flush fault position in key mode (a sample in password mode: each run is a real scrypt): result, fault side, prefix, no use of a failed sink, no panic; key_encrypt to each of the 7 small-order recipient keys and their bit-255 variants is refused with no call on the sink; key_decrypt / pass_decrypt of the documented files: plaintext and sender, wrong or mismatched recipient keys, every truncation and every single-bit flip of the 132-byte key-file header, 5 header bit flips of a password file: rejected with nothing written"
 //@ native verif_oracle_stream_memory "bounded stand-in / witness finder (C11): peak heap growth of the calling thread (counting global allocator) during key_encrypt and pass_encrypt of a 1 MiB and a 6 MiB stream delivered in reads of 65536, 8192, 5000, 100-then-8192, 70000 and 65535 bytes, and during key_decrypt of 256 KiB and 2 MiB files made of full and of 1000-byte chunks: the larger input may not need more than 256 KiB more than the smaller one"
 //@ native verif_oracle_scrypt_kat "bounded stand-in / witness finder (C18): kestrel_crypto::scrypt against OpenSSL's scrypt (python hashlib, computed at check time) on a parameter sweep N in {2,4,16,64} x r in {1,2,3,8} x p in 1..8 x dkLen in {1,31,32,33,64,65,200} with password / salt lengths in {0,1,7,64,65}"
 // Native oracles on the REAL code.  Never counted as proved; a disagreement is a concrete failing input.
@@ -208,6 +209,171 @@ mod verif_o_lib {
         }
         println!("VERIF_ORACLE verif_oracle_stream_memory cases={} disagreements={} first={:?}", n, bad, first);
         assert!(bad == 0, "peak memory grows with the input in {} of {} cases; first: {:?}", bad, n, first);
+    }
+
+    // ---------------------------------------------------------------- file level: key_encrypt / pass_encrypt / key_decrypt / pass_decrypt
+    struct FReader { data: Vec<u8>, pos: usize, step: usize, call: usize, fail_at: usize, failed: bool, hist: Vec<usize> }
+    impl std::io::Read for FReader {
+        fn read(&mut self, buf: &mut [u8]) -> std::io::Result<usize> {
+            let c = self.call; self.call += 1;
+            if c == self.fail_at { self.failed = true; return Err(std::io::Error::from(std::io::ErrorKind::Other)); }
+            let n = self.step.min(buf.len()).min(self.data.len() - self.pos);
+            buf[..n].copy_from_slice(&self.data[self.pos..self.pos + n]);
+            self.pos += n;
+            if n > 0 { self.hist.push(n); }
+            Ok(n)
+        }
+    }
+    struct FWriter { out: Vec<u8>, max: usize, call: usize, fail_at: usize, failed: bool, after_fail: usize }
+    impl std::io::Write for FWriter {
+        fn write(&mut self, buf: &[u8]) -> std::io::Result<usize> {
+            let c = self.call; self.call += 1;
+            if self.failed { self.after_fail += 1; }
+            if c == self.fail_at { self.failed = true; return Err(std::io::Error::from(std::io::ErrorKind::Other)); }
+            let n = buf.len().min(self.max);
+            self.out.extend_from_slice(&buf[..n]);
+            Ok(n)
+        }
+        fn flush(&mut self) -> std::io::Result<()> {
+            let c = self.call; self.call += 1;
+            if self.failed { self.after_fail += 1; }
+            if c == self.fail_at { self.failed = true; return Err(std::io::Error::from(std::io::ErrorKind::Other)); }
+            Ok(())
+        }
+    }
+    /// the documented chunk stream for a read history (docs/file-format.txt) under `key` / `aad`
+    fn ref_stream(key: &[u8], aad: &[u8], data: &[u8], hist: &[usize]) -> Vec<u8> {
+        let mut out = Vec::new();
+        let parts: Vec<usize> = if hist.is_empty() { vec![0] } else { hist.to_vec() };
+        let mut pos = 0usize;
+        for (i, len) in parts.iter().enumerate() {
+            let last: u32 = if i + 1 == parts.len() { 1 } else { 0 };
+            let mut ad = aad.to_vec(); ad.extend_from_slice(&last.to_be_bytes()); ad.extend_from_slice(&(*len as u32).to_be_bytes());
+            let ct = chapoly_encrypt_noise(key, i as u64, &ad, &data[pos..pos + len]);
+            out.extend_from_slice(&(i as u64).to_be_bytes()); out.extend_from_slice(&last.to_be_bytes()); out.extend_from_slice(&(*len as u32).to_be_bytes());
+            out.extend_from_slice(&ct);
+            pos += len;
+        }
+        out
+    }
+    #[test]
+    fn verif_oracle_file_level() {
+        let mut n = 0u32; let mut bad = 0u32; let mut first: Option<String> = None;
+        let mut fail = |bad: &mut u32, first: &mut Option<String>, what: String| { *bad += 1; if first.is_none() { *first = Some(what); } };
+        let s = PrivateKey::try_from(&[0x11u8; 32][..]).unwrap(); let sp = s.to_public().unwrap();
+        let r = PrivateKey::try_from(&[0x22u8; 32][..]).unwrap(); let rp = r.to_public().unwrap();
+        let e = PrivateKey::try_from(&[0x33u8; 32][..]).unwrap(); let ep = e.to_public().unwrap();
+        let other = PrivateKey::try_from(&[0x44u8; 32][..]).unwrap(); let otherp = other.to_public().unwrap();
+        let pk = PayloadKey::new(&[0x55u8; 32]);
+        let magic_k = [0x65u8, 0x67, 0x6b, 0x10]; let magic_p = [0x65u8, 0x67, 0x6b, 0x20];
+        let nm = noise_encrypt(&s, &sp, &rp, Some(&e), Some(&ep), &magic_k, &pk).unwrap();
+        let fkey = hkdf_sha256(&[], pk.as_bytes(), &nm.handshake_hash, 32);
+        let salt = [0x66u8; 32]; let pw = b"file level password";
+        let pkey = scrypt(pw, &salt, 32768, 8, 1, 32);
+        let data: Vec<u8> = vec![0x41, 0x42, 0x43, 0x44, 0x45];
+        let expected = |mode: &str, d: &[u8], hist: &[usize]| -> Vec<u8> {
+            let mut f = Vec::new();
+            if mode == "key" { f.extend_from_slice(&magic_k); f.extend_from_slice(&nm.ciphertext); f.extend_from_slice(&ref_stream(&fkey, &[], d, hist)); }
+            else { f.extend_from_slice(&magic_p); f.extend_from_slice(&salt); f.extend_from_slice(&ref_stream(&pkey, &magic_p, d, hist)); }
+            f
+        };
+        // ---- encryption: every plaintext length 0..=5, read step 1 / 2 / whole, whole or 3-byte writes, every fault position
+        for mode in ["key", "pass"] {
+            for len in [0usize, 1, 5] { for step in [1usize, 2, 64] { for wmax in [usize::MAX, 3] {
+                let base_calls_r = len / step + 3; let base_calls_w = if wmax == 3 { 120 } else { 12 + 3 * len };
+                let mut faults: Vec<(usize, usize)> = vec![(usize::MAX, usize::MAX)];
+                if mode == "key" {
+                    for rf in 0..base_calls_r { faults.push((rf, usize::MAX)); }
+                    for wf in 0..base_calls_w { faults.push((usize::MAX, wf)); }
+                } else if len == 5 && step == 2 && wmax == usize::MAX {
+                    for rf in [0usize, 2] { faults.push((rf, usize::MAX)); }
+                    for wf in [0usize, 1, 2, 3, 6] { faults.push((usize::MAX, wf)); }
+                } else if !(len == 5 && step == 2) { faults.clear(); if wmax == usize::MAX && step == 64 { faults.push((usize::MAX, usize::MAX)); } }
+                for (rf, wf) in faults {
+                    n += 1;
+                    let mut rd = FReader { data: data[..len].to_vec(), pos: 0, step, call: 0, fail_at: rf, failed: false, hist: Vec::new() };
+                    let mut wr = FWriter { out: Vec::new(), max: wmax, call: 0, fail_at: wf, failed: false, after_fail: 0 };
+                    let res = std::panic::catch_unwind(std::panic::AssertUnwindSafe(|| {
+                        if mode == "key" { crate::encrypt::key_encrypt(&mut rd, &mut wr, &s, &sp, &rp, Some(&e), Some(&ep), Some(&pk), AsymFileFormat::V1) }
+                        else { crate::encrypt::pass_encrypt(&mut rd, &mut wr, pw, salt, PassFileFormat::V1) }
+                    }));
+                    let what = format!("{} encryption of {} bytes, reads of {} bytes, writes of at most {} bytes, read fault at call {}, write/flush fault at call {}", mode, len, step, wmax as isize, rf as isize, wf as isize);
+                    let res = match res { Ok(x) => x, Err(_) => { fail(&mut bad, &mut first, format!("PANIC: {}", what)); continue; } };
+                    let exp = expected(mode, &data[..len], &rd.hist);
+                    if !rd.failed && !wr.failed {
+                        if res.is_err() || wr.out != exp { fail(&mut bad, &mut first, format!("{}: result {}, {} bytes written, equal to the documented file ({} bytes): {}", what, if res.is_ok() { "Ok" } else { "Err" }, wr.out.len(), exp.len(), wr.out == exp)); }
+                    } else {
+                        let side_ok = match &res { Ok(()) => false, Err(crate::errors::EncryptError::IORead(_)) => rd.failed, Err(crate::errors::EncryptError::IOWrite(_)) => wr.failed, Err(_) => false };
+                        if !side_ok { fail(&mut bad, &mut first, format!("{}: the fault is reported as {}", what, match &res { Ok(()) => "Ok".to_string(), Err(er) => format!("{}", er) })); }
+                        else if wr.out.len() > exp.len() || wr.out[..] != exp[..wr.out.len()] { fail(&mut bad, &mut first, format!("{}: what was written is not a prefix of the fault-free file", what)); }
+                        else if wr.after_fail > 0 { fail(&mut bad, &mut first, format!("{}: the sink was used again after it had failed", what)); }
+                    }
+                }
+            } } }
+        }
+        // ---- C05 / C13: a recipient key that forces an all-zero shared secret is refused, and nothing at all reaches the sink
+        {
+            let hexes = ["0000000000000000000000000000000000000000000000000000000000000000",
+                         "0100000000000000000000000000000000000000000000000000000000000000",
+                         "e0eb7a7c3b41b8ae1656e3faf19fc46ada098deb9c32b1fd866205165f49b800",
+                         "5f9c95bca3508c24b1d0b1559c83ef5b04445cc4581c8e86d8224eddd09f1157",
+                         "ecffffffffffffffffffffffffffffffffffffffffffffffffffffffffffff7f",
+                         "edffffffffffffffffffffffffffffffffffffffffffffffffffffffffffff7f",
+                         "eeffffffffffffffffffffffffffffffffffffffffffffffffffffffffffff7f"];
+            for h in hexes.iter() { for top in [0u8, 0x80] {
+                n += 1;
+                let mut b = unhex(h); b[31] |= top;
+                let low = PublicKey::try_from(&b[..]).unwrap();
+                let mut rd = FReader { data: data.clone(), pos: 0, step: 64, call: 0, fail_at: usize::MAX, failed: false, hist: Vec::new() };
+                let mut wr = FWriter { out: Vec::new(), max: usize::MAX, call: 0, fail_at: usize::MAX, failed: false, after_fail: 0 };
+                let res = std::panic::catch_unwind(std::panic::AssertUnwindSafe(|| crate::encrypt::key_encrypt(&mut rd, &mut wr, &s, &sp, &low, Some(&e), Some(&ep), Some(&pk), AsymFileFormat::V1).is_ok()));
+                if !matches!(res, Ok(false)) || !wr.out.is_empty() || wr.call != 0 {
+                    fail(&mut bad, &mut first, format!("key_encrypt to the small-order recipient key {}{}: {}, {} bytes written, {} calls on the sink", h, if top != 0 { " with bit 255 set" } else { "" }, match res { Ok(true) => "Ok", Ok(false) => "refused", Err(_) => "PANIC" }, wr.out.len(), wr.call));
+                }
+            } }
+        }
+        // ---- decryption of the documented files: round trip, sender, every header bit flip / truncation, wrong keys
+        let file_k = expected("key", &data, &[2, 2, 1]);
+        let file_p = expected("pass", &data, &[2, 2, 1]);
+        {
+            n += 1;
+            let mut out = Vec::new();
+            match crate::decrypt::key_decrypt(&mut &file_k[..], &mut out, &r, &rp, AsymFileFormat::V1) {
+                Ok(sender) if sender.as_bytes() == sp.as_bytes() && out == data => {}
+                other => fail(&mut bad, &mut first, format!("key_decrypt of the documented 3-chunk file: {} (plaintext equal: {})", match other { Ok(_) => "Ok with another sender key".to_string(), Err(er) => format!("Err {}", er) }, out == data)),
+            }
+            n += 1;
+            let mut out = Vec::new();
+            if crate::decrypt::pass_decrypt(&mut &file_p[..], &mut out, pw, PassFileFormat::V1).is_err() || out != data { fail(&mut bad, &mut first, "pass_decrypt of the documented 3-chunk file fails or returns other bytes".to_string()); }
+            n += 1;
+            let mut out = Vec::new();
+            if crate::decrypt::key_decrypt(&mut &file_k[..], &mut out, &other, &otherp, AsymFileFormat::V1).is_ok() || !out.is_empty() { fail(&mut bad, &mut first, "key_decrypt under a key the file was not addressed to succeeds or writes".to_string()); }
+            n += 1;
+            let mut out = Vec::new();
+            if crate::decrypt::key_decrypt(&mut &file_k[..], &mut out, &r, &otherp, AsymFileFormat::V1).is_ok() || !out.is_empty() { fail(&mut bad, &mut first, "key_decrypt with a recipient public key that does not match the private key succeeds or writes".to_string()); }
+        }
+        for cut in 0..132usize {
+            n += 1;
+            let mut out = Vec::new();
+            let rr = std::panic::catch_unwind(std::panic::AssertUnwindSafe(|| crate::decrypt::key_decrypt(&mut &file_k[..cut], &mut out, &r, &rp, AsymFileFormat::V1).is_ok()));
+            if !matches!(rr, Ok(false)) || !out.is_empty() { fail(&mut bad, &mut first, format!("key file truncated to {} bytes: {}", cut, if rr.is_err() { "PANIC" } else { "accepted or output written" })); }
+        }
+        for byte in 0..132usize { for bit in 0..8u8 {
+            n += 1;
+            let mut m = file_k.clone(); m[byte] ^= 1 << bit;
+            let mut out = Vec::new();
+            let rr = std::panic::catch_unwind(std::panic::AssertUnwindSafe(|| crate::decrypt::key_decrypt(&mut &m[..], &mut out, &r, &rp, AsymFileFormat::V1).is_ok()));
+            if !matches!(rr, Ok(false)) || !out.is_empty() { fail(&mut bad, &mut first, format!("key file with bit {} of header byte {} flipped: {}", bit, byte, if rr.is_err() { "PANIC" } else { "ACCEPTED" })); }
+        } }
+        for byte in [0usize, 3, 4, 20, 35] {     // password files: each header flip costs a real scrypt
+            n += 1;
+            let mut m = file_p.clone(); m[byte] ^= 0x80;
+            let mut out = Vec::new();
+            let rr = std::panic::catch_unwind(std::panic::AssertUnwindSafe(|| crate::decrypt::pass_decrypt(&mut &m[..], &mut out, pw, PassFileFormat::V1).is_ok()));
+            if !matches!(rr, Ok(false)) || !out.is_empty() { fail(&mut bad, &mut first, format!("password file with the top bit of header byte {} flipped: {}", byte, if rr.is_err() { "PANIC" } else { "ACCEPTED" })); }
+        }
+        println!("VERIF_ORACLE verif_oracle_file_level cases={} disagreements={} first={:?}", n, bad, first);
+        assert!(bad == 0, "file-level functions disagree with the documented format in {} of {} cases; first: {:?}", bad, n, first);
     }
 
     // ---------------------------------------------------------------- C07
